@@ -95,6 +95,8 @@ structure EnfSt where
   fa : Option FASt := none
   /-- the case left what the model covers (an order that depends on Go's map iteration): every later line answers `none` -/
   dead : Bool := false
+  /-- what the first phase of a two-phase LoadPolicy read from the adapter (C13, finding D19) -/
+  snaps : List (Nat × List (String × Rule)) := []
 
 def showMRes : Enf.MRes → String
   | .ok b => showBool b
@@ -352,6 +354,30 @@ def enfOp (st : EnfSt) (ts : List String) : Option (EnfSt × String × String ×
           -- a successful load rebuilds every link from the loaded rules
           -- (with auto-build off the links are left as they were: out of step until BuildRoleLinks)
           some ({ st with enf := some ep', histOk := if ok then stateOk ep'.base && ep'.base.autoBuild else st.histOk }, (if ok then "ok" else "err"), "-", true)
+      | "has", sec :: pt :: fs => do
+          let r ← decodeAll fs
+          match e.getStore sec pt with
+          | some s => ret e (showBool (s.has r)) "-" true
+          | none => ret e "err" "-" true
+      | "loadread", [k] => do
+          -- the first phase of SyncedEnforcer.LoadPolicy: read the adapter (under RLock)
+          let k ← k.toNat?
+          match e.adapter with
+          | some a =>
+              let (a', _) := a.call "LoadPolicy"
+              some ({ st with enf := some { ep with base := { e with adapter := some a' } }, snaps := (k, a.lines) :: st.snaps }, "ok", "-", true)
+          | none => ret e "err" "-" true
+      | "loadapply", [k] => do
+          -- the second phase (under Lock): install what the first phase read
+          let k ← k.toNat?
+          match st.snaps.lookup k, e.adapter with
+          | some snap, some a =>
+              let e1 : Enf := { e with adapter := some { a with lines := snap, log := [], calls := 0 } }
+              let (ep', ok) := ({ ep with base := e1 } : EnfP).loadPolicy
+              -- the adapter itself is as it was (the read happened in phase one)
+              let ep'' : EnfP := { ep' with base := { ep'.base with adapter := some a } }
+              some ({ st with enf := some ep'', histOk := if ok then stateOk ep''.base && ep''.base.autoBuild else st.histOk }, (if ok then "ok" else "err"), "-", true)
+          | _, _ => ret e "err" "-" true
       | "save", [] =>
           let (e', ok) := e.savePolicy
           ret e' (if ok then "ok" else "err") "-" true
